@@ -348,10 +348,19 @@ func genMalformed(t *rapid.T) Case {
 		c.Class = fmt.Sprintf("transfer-encoding=%q", v)
 		m.render(b)
 	case "transfer-encoding-repeated":
-		m.te = []string{"chunked", "chunked"}
+		// the field occurs more than once: whatever the other occurrence says (the same, another coding, nothing
+		// at all, blanks, a lone comma), in whichever order - the framing is ambiguous and must be refused
+		other := rapid.SampledFrom([]string{"chunked", "chunked", "gzip", "identity", "", " ", "\t", ",", " , "}).Draw(t, "te_other")
+		m.te = []string{"chunked", other}
+		if rapid.Bool().Draw(t, "te_swap") {
+			m.te = []string{other, "chunked"}
+		}
+		if len(m.chunks) == 0 {
+			m.chunks = []string{"cc"}
+		}
 		m.clValue = "\x00"
 		m.body = ""
-		c.Class = "transfer-encoding-repeated"
+		c.Class = fmt.Sprintf("transfer-encoding-repeated=%q", other)
 		m.render(b)
 	case "chunk-size":
 		v := rapid.SampledFrom(badChunk).Draw(t, "badchunk")
